@@ -36,16 +36,16 @@ spec fn ps_inv(s: crate::htlc_manager::PaymentState, g: G) -> bool {
 //@ requires#held_total_fits_u64
 //    input validity assumption (listed): the sum of simultaneously held HTLC amounts is < 2^64 msat
       sum_held(old(g).held) + req.htlc.amount_msat as int <= u64::MAX as int
-//@ ensures#inv [C03,C06,C07,C04,C14]
+//@ ensures#inv [C03,C06,C07,C04,C14,C11]
       ps_inv(*final(self), *final(g))
 //@ ensures#late_htlc_gets_the_recorded_resolution [C07,C06]
       old(self).resolution is Some ==> (sender.fate() == old(self).resolution && *final(self) == *old(self) && *final(g) == *old(g))
-//@ ensures#held_grows_by_this_htlc [C03,C04,C06]
+//@ ensures#held_grows_by_this_htlc [C03,C04,C06,C11]
       old(self).resolution is None ==> (
           final(g).held == old(g).held.push(HeldAbs { amount: req.htlc.amount_msat, expiry: req.htlc.cltv_expiry })
           && final(self).htlcs@ == old(self).htlcs@.push(sender)
           && final(self).resolution is None)
-//@ ensures#ready_only_when_covered_and_not_failed [C03,C07]
+//@ ensures#ready_only_when_covered_and_not_failed [C03,C07,C11]
       final(g).ready_q.len() > old(g).ready_q.len() ==> (
           !final(self).is_fail_requested
           && fee_spec(final(self).trampoline.routing_policy, final(self).amount_received_msat, final(self).trampoline.amount_msat))
